@@ -125,6 +125,9 @@ def BytesIO.read (b : BytesIO) (n : Int) : List Nat × BytesIO :=
 /-- `STRAND_STR[strand]` style lookup in a tuple literal (negative index wraps, as in Python) -/
 def tupleGet {α : Type} (t : List α) (i : Int) : R α := pyGet t i
 
+/-- Python's order on pairs of integers (`(a, b) <= (c, d)`), the key order of `sorted(..., key=lambda v: (k1, k2))` -/
+def lexLe2 (a b : Int × Int) : Bool := decide (a.1 < b.1) || (decide (a.1 = b.1) && decide (a.2 ≤ b.2))
+
 /-- `sum(xs)` -/
 def sum (xs : List Int) : Int := sumInts xs
 
